@@ -18,6 +18,7 @@ FIELDS = ["type", "kind", "shape"]     # discriminator key names; id = position
 FIELD = FIELDS[0]
 N_ENUM = 200         # members of the StrEnum used for enum-styled tags
 KERR_MARKER = 999    # Discr.kerr_marker: the input carries the key "kerr"
+AERR_MARKER = 998    # Discr.aerr_marker: the input carries the key "aerr"
 
 PREAMBLE = """
 from dataclasses import dataclass, field
@@ -53,6 +54,8 @@ def kerr_hook(cls, d):
     # a variant whose own from_dict leaks a KeyError (e.g. a hook indexing a mapping) on inputs carrying the marker
     if "kerr" in d:
         raise KeyError("kerr:" + cls.__name__)
+    if "aerr" in d:
+        raise AttributeError("aerr:" + cls.__name__)
     return d
 """ % N_ENUM
 
@@ -516,8 +519,12 @@ def gen_history(rng, stream: str = "main", max_ops: int = 40) -> Hist:
             for f in present:
                 inp[f"f{f}"] = f
         if use_kerr and rng.random() < 0.3:
-            inp["kerr"] = 1
-            present = present + [KERR_MARKER]
+            if rng.random() < 0.6:
+                inp["kerr"] = 1
+                present = present + [KERR_MARKER]
+            else:
+                inp["aerr"] = 1
+                present = present + [AERR_MARKER]
         return keys, present, inp
 
     def decode():
@@ -667,6 +674,8 @@ def outcome_of_exc(e: BaseException):
         while cur is not None and n < 6:       # the selected class's own KeyError surfaces (it names the class)
             if type(cur) is KeyError and cur.args and isinstance(cur.args[0], str) and cur.args[0].startswith("kerr:C"):
                 return ("keyerr", cur.args[0][5:])
+            if type(cur) is AttributeError and cur.args and isinstance(cur.args[0], str) and cur.args[0].startswith("aerr:C"):
+                return ("attrerr", cur.args[0][5:])
             cur = cur.__cause__ or cur.__context__
             n += 1
         cur, n = e, 0
@@ -772,7 +781,9 @@ def spec_field(ns: dict, n_classes: int, s: dict, inp: dict):
                      "tgid": 1 if d.variant_tagger_fn is ns.get("tagger1") else 0}
             return spec_field(ns, n_classes, inner, inp)[0], True
         if leaks_keyerror(ns, c, inp):     # the selected class's own from_dict raises KeyError: that error (or anything but
-            return ("keyerr", c.__name__), True      # "no suitable variant") should surface - known finding variant-keyerror-misreported
+            return ("keyerr", c.__name__), True      # "no suitable variant") surfaces (/repo 2eac3a7)
+        if leaks_keyerror(ns, c, inp, "aerr"):
+            return ("attrerr", c.__name__), True
         if not spec_accepts(ns, c, inp):   # selected, but the class itself rejects the input: its own error surfaces
             return ("rej", c.__name__), True
         return ("inst", c.__name__), True
@@ -781,13 +792,13 @@ def spec_field(ns: dict, n_classes: int, s: dict, inp: dict):
     return None, False
 
 
-def leaks_keyerror(ns: dict, c, inp: dict) -> bool:
+def leaks_keyerror(ns: dict, c, inp: dict, marker: str = "kerr") -> bool:
     hook = getattr(c, "__pre_deserialize__", None)
-    return hook is not None and getattr(hook, "__func__", None) is ns.get("kerr_hook") and "kerr" in inp
+    return hook is not None and getattr(hook, "__func__", None) is ns.get("kerr_hook") and marker in inp
 
 
 def spec_accepts(ns: dict, c, inp: dict) -> bool:
-    if leaks_keyerror(ns, c, inp):
+    if leaks_keyerror(ns, c, inp) or leaks_keyerror(ns, c, inp, "aerr"):
         return False
     return all(f.name in inp for f in dataclasses.fields(c)
                if f.init and f.default is dataclasses.MISSING and f.default_factory is dataclasses.MISSING)
@@ -928,6 +939,8 @@ def fmt(o) -> str:
         return "rejected by " + o[1]
     if o[0] == "keyerr":
         return "KeyError of " + o[1]
+    if o[0] == "attrerr":
+        return "AttributeError of " + o[1]
     if o[0] == "many":
         return "+".join(o[1])
     if o[0] == "notdict":
@@ -995,6 +1008,8 @@ def coq_outcome(o) -> str:
         return "Some OCrash"
     if o[0] == "keyerr" and o[1].startswith("C") and o[1][1:].isdigit():
         return f"Some (OKeyErr {int(o[1][1:])})"
+    if o[0] == "attrerr" and o[1].startswith("C") and o[1][1:].isdigit():
+        return f"Some (OAttrErr {int(o[1][1:])})"
     if o[0] == "rej" and o[1].startswith("C") and o[1][1:].isdigit():
         return f"Some (ORej {int(o[1][1:])})"
     if o[0] == "many" and all(n.startswith("C") and n[1:].isdigit() for n in o[1]):
@@ -1082,10 +1097,15 @@ def build_fixed(kind: str, style: str, classes_spec: list, sites_spec: list, eve
                 for f in present:
                     if f == KERR_MARKER:
                         inp["kerr"] = 1
+                    elif f == AERR_MARKER:
+                        inp["aerr"] = 1
                     else:
                         inp[f"f{f}"] = f
-            elif KERR_MARKER in present:
-                inp["kerr"] = 1
+            else:
+                if KERR_MARKER in present:
+                    inp["kerr"] = 1
+                if AERR_MARKER in present:
+                    inp["aerr"] = 1
             ops.append(("decode", si, keys, list(present)))
             st_ = decode_step(s, inp)
             if len(ev) > 6 and ev[6]:
@@ -1228,10 +1248,10 @@ def fixed_histories() -> list[Hist]:
     ev = [("define", k) for k in range(7)] + [("site", 0), ("site", 1)]
     for skey in (("config", 0), ("site", 0)):
         ev += [("decode", skey, 1, [8]), ("decode", skey, 1, []), ("decode", skey, 2, []), ("decode", skey, 2, [9]),
-               ("decode", skey, 3, []), ("decode", skey, 3, [KERR_MARKER]), ("decode", skey, None, [8])]
+               ("decode", skey, 3, []), ("decode", skey, 3, [KERR_MARKER]), ("decode", skey, 3, [AERR_MARKER]), ("decode", skey, None, [8])]
     for skey in (("config", 1), ("site", 1)):
         ev += [("decode", skey, 2, [9]), ("decode", skey, None, [9]), ("decode", skey, None, [7]), ("decode", skey, 1, []),
-               ("decode", skey, None, [7, KERR_MARKER])]
+               ("decode", skey, None, [7, KERR_MARKER]), ("decode", skey, None, [7, AERR_MARKER])]
     out.append(build_fixed("mixed", "str", cl, st, ev))
     # known finding optional-union-nonetype-variant, in the model: Annotated[Optional[Union[C0, C1]], D(sup, tagger)] through
     # a holder - every registry miss crashes after registering the real classes, the same input works afterwards; a codec
